@@ -66,6 +66,7 @@ type FuncContract struct {
 	Trusted  bool
 	Bounded  int
 	mergeProps []string
+	Implements string // slot whose contract this function is verified against (own asserts/loop clauses are merged in)
 }
 
 type PureFunc struct {
@@ -199,7 +200,7 @@ func stripComment(s string) string {
 	return s
 }
 
-var kwRe = regexp.MustCompile(`^\s*(group|func|extern|slot|requires|ensures|modifies|invariant|history|loop|ghostinit|ghost|pure|lemma|axiom|const|global|assert|mode|maypanic|noinv|use|callslot|trusted|bounded|pkg|end)\b`)
+var kwRe = regexp.MustCompile(`^\s*(group|func|extern|slot|requires|ensures|modifies|invariant|history|loop|ghostinit|ghost|pure|lemma|axiom|const|global|assert|mode|maypanic|noinv|use|callslot|trusted|bounded|pkg|end|implements)\b`)
 
 var labelRe = regexp.MustCompile(`^\s*([A-Za-z_][A-Za-z0-9_]*)\s*:\s*(.*)$`)
 var propsRe = regexp.MustCompile(`^\s*\[([A-Z0-9, ]+)\]\s*(.*)$`)
@@ -337,6 +338,11 @@ func (c *Contracts) LoadFile(path string) error {
 			} else {
 				cur.Mode = md
 			}
+		case "implements":
+			if cur == nil {
+				return fail(l, "implements outside func")
+			}
+			cur.Implements = rest
 		case "maypanic":
 			cur.MayPanic = true
 		case "trusted":
